@@ -135,6 +135,42 @@ def build_regular(cfg, with_order=True):
     raise core.MachineryError('unknown lattice class %r' % base)
 
 
+def snapshot(lat, cfg):
+    """What is observable of a lattice (and of the lattices it is built on) through its public interface;
+    used to see that deriving another lattice from a copy leaves the original as it was."""
+    out = dict(Ls=[int(x) for x in lat.Ls], N_sites=int(lat.N_sites), bc_MPS=lat.bc_MPS, order=np.asarray(lat.order).tolist())
+    for attr in ('simple_lattice', 'regular_lattice'):
+        sub = getattr(lat, attr, None)
+        if sub is not None:
+            out[attr + '.Ls'] = [int(x) for x in sub.Ls]
+            out[attr + '.N_sites'] = int(sub.N_sites)
+            out[attr + '.order'] = np.asarray(sub.order).tolist()
+    if cfg['ord']['kind'] != 'perm' and cfg['cls'] != 'Grouped':
+        try:
+            out['ordering'] = np.asarray(lat.ordering(order_arg(cfg['ord']))).tolist()
+        except Exception as e:
+            out['ordering'] = repr(e)
+    try:
+        box = np.indices(lat.shape).reshape(len(lat.shape), -1).T
+        out['lat2mps_idx'] = np.asarray(lat.lat2mps_idx(box)).tolist()
+    except Exception as e:
+        out['lat2mps_idx'] = repr(e)
+    try:
+        n = int(lat.N_sites)
+        idx = np.arange(-n, 2 * n) if lat.bc_MPS != 'finite' else np.arange(n)
+        out['mps2lat_idx'] = np.asarray(lat.mps2lat_idx(idx)).tolist()
+    except Exception as e:
+        out['mps2lat_idx'] = repr(e)
+    try:
+        dx = np.array([1] + [0] * (len(lat.Ls) - 1))
+        i, j, li, sh = lat.possible_couplings(0, 0, dx)
+        out['couplings'] = [np.asarray(i).tolist(), np.asarray(j).tolist()]
+    except Exception as e:
+        out['couplings'] = repr(e)
+    out['mps_sites'] = len(lat.mps_sites())
+    return out
+
+
 def build_lattice(cfg, order):
     """The real lattice for the spec case `cfg`; `order` (spec value) is only used as *input* for
     custom permutations (ord.kind == 'perm').  Observations made on the way (behaviour of a constructor that
@@ -145,9 +181,12 @@ def build_lattice(cfg, order):
     flags = {}
     perm = cfg['ord']['kind'] == 'perm'
     if cfg.get('parent'):
-        # derived lattice: build the parent (a fresh object, the operations are in place), then derive
+        # derived lattice: build the parent (a fresh object), derive, and watch the objects that must not change
         par = build_lattice(cfg['parent'], None)
-        flags.update(getattr(par, '_verif_flags', {}))
+        flags.update({k: v for k, v in getattr(par, '_verif_flags', {}).items() if not k.startswith('original_')})
+        pcfg = cfg['parent']
+        via = cfg.get('via', 'none')
+        before = snapshot(par, pcfg) if (cls == 'Grouped' or via in ('copy', 'segment')) else None
         if cls == 'Grouped':
             from tenpy.networks.site import group_sites
             if cfg.get('enl', 1) > 1:
@@ -156,10 +195,24 @@ def build_lattice(cfg, order):
                 par.unit_cell = par.unit_cell
             grouped = group_sites(par.mps_sites(), cfg['grp'], charges='same')
             lat = par.with_grouped_sites(grouped)
+        elif via == 'segment':
+            par.mps_sites()
+            lat = par.extract_segment(enlarge=cfg['enl'])
+        elif via == 'copy':
+            lat = par.copy()
+            lat.mps_sites()  # fill the cache of the sites: it has to be invalidated by the enlargement
+            lat.enlarge_mps_unit_cell(cfg['enl'])
         else:
-            par.mps_sites()  # fill the cache of the sites: it has to be invalidated by the enlargement
+            par.mps_sites()
             par.enlarge_mps_unit_cell(cfg['enl'])
             lat = par
+        if before is not None:
+            after = snapshot(par, pcfg)
+            for k in before:
+                if before[k] != after[k]:
+                    flags['original_changed'] = dict(what=k, before=before[k], after=after[k])
+                    break
+            flags['original_order'] = after['order']
         lat._verif_flags = flags
         return lat
     if cls == 'Multi':
